@@ -22,7 +22,7 @@ EXPLANATION = (
     "frames; inverse laws on values."
 )
 LEVEL_RULE = "one obligation per (method) / (constructor parameter) / (constructor call, attribute) / raise"
-FLOORS = {"R1": 10, "R2": 28, "R3": 20, "R4": 8}
+FLOORS = {"R1": 10, "R2": 28, "R3": 20, "R4": 8, "R5": 10}
 
 COLUMN_CLASSES = ["pandera/api/pandas/components.py::Column", "pandera/api/polars/components.py::Column"]
 # attributes that a conversion between Column and Index legitimately sets itself / cannot carry over
@@ -100,7 +100,67 @@ def _source_of(call: ast.Call):
     return best
 
 
+def _properties_keys(ix):
+    c = ix.cls(COLUMN_CLASSES[0])
+    prop = c.method("properties")
+    ds = _returned_dicts(prop)
+    return set(_dict_keys(ds[0])) if ds else set()
+
+
+def _literal_strings(node, ex):
+    node = ex.expand(node)
+    if isinstance(node, (ast.Tuple, ast.List, ast.Set)) and all(isinstance(e, ast.Constant) and isinstance(e.value, str) for e in node.elts):
+        return {e.value for e in node.elts}
+    return None
+
+
+def _forwarded(ix, f, call, ex):
+    """attribute -> value expression (or True when forwarded through a recognised **splat); problems found on the way"""
+    given, problems, src = {}, [], None
+    for k in call.keywords:
+        if k.arg:
+            given[k.arg] = k.value
+            if isinstance(k.value, ast.Attribute):
+                src = src or txt(k.value.value)
+            continue
+        d = ex.expand(k.value)
+        if isinstance(d, ast.Dict):
+            for kk, vv in zip(d.keys, d.values):
+                if isinstance(kk, ast.Constant):
+                    given[kk.value] = vv
+            continue
+        if isinstance(d, ast.DictComp) and len(d.generators) == 1:
+            g = d.generators[0]
+            it = g.iter
+            base = it.func.value if isinstance(it, ast.Call) and callee_last(it) == "items" else it
+            if isinstance(base, ast.Attribute) and base.attr == "properties" and isinstance(g.target, ast.Tuple) and len(g.target.elts) == 2:
+                kn, vn = txt(g.target.elts[0]), txt(g.target.elts[1])
+                src = src or txt(base.value)
+                keys = set(_properties_keys(ix))
+                if txt(d.key) != kn or txt(d.value) != vn:
+                    problems.append(f"the splat re-maps properties (`{txt(d.key)}: {txt(d.value)}`)")
+                for cond in g.ifs:
+                    for atom in (cond.values if isinstance(cond, ast.BoolOp) and isinstance(cond.op, ast.And) else [cond]):
+                        excl = None
+                        if isinstance(atom, ast.Compare) and len(atom.ops) == 1 and isinstance(atom.ops[0], ast.NotIn) and txt(atom.left) == kn:
+                            excl = _literal_strings(atom.comparators[0], ex)
+                        elif isinstance(atom, ast.Compare) and len(atom.ops) == 1 and isinstance(atom.ops[0], ast.NotEq) and txt(atom.left) == kn \
+                                and isinstance(atom.comparators[0], ast.Constant):
+                            excl = {atom.comparators[0].value}
+                        if excl is not None:
+                            keys -= excl
+                        else:
+                            problems.append(f"properties are forwarded only `if {txt(atom)}`: a filter on the value drops attributes that are set to a "
+                                            "falsy value (default=0, default=False, title='', metadata={})")
+                for a in keys:
+                    given.setdefault(a, True)
+                continue
+        raise AnalysisError(f"{f.qual}: cannot see what `**{txt(k.value)}` forwards to {txt(call.func)}(...)")
+    return given, problems, src
+
+
 def r3_forwarding(ctx):
+    from ..util import Expander
     ix = ctx.ix
     col = ix.cls("pandera/api/pandas/components.py::Column")
     idx = ix.cls("pandera/api/pandas/components.py::Index")
@@ -114,28 +174,31 @@ def r3_forwarding(ctx):
         if f is None:
             raise AnalysisError("transformation method missing")
         ctx.touched(f)
+        ex = Expander(f.node)
+        n_site = 0
         for c in calls_in(f.node):
             if not (isinstance(c.func, ast.Name) and c.func.id == target) or id(c) in done:
                 continue
-            src, kws = _source_of(c)
-            if src is None or len(kws) < 3:
-                continue
+            given, problems, src = _forwarded(ix, f, c, ex)
+            if src is None:
+                continue  # built from literals, not a conversion of an existing component
             done.add(id(c))
-            given = {}
-            for k in c.keywords:
-                if k.arg:
-                    given[k.arg] = k.value
+            n_site += 1
+            for pr in problems:
+                ctx.ob("R3", f, f"{f.short}: {target}(...) built from `{src}` forwards unconditionally", False, pr, f.loc(c))
             for a in sorted(set(tparams) & set(sparams)):
                 if a in NOT_CARRIED:
                     continue
                 if a == "coerce" and f.name == "__init__":
                     continue  # MultiIndex keeps self.indexes and reads coerce from them (MultiIndexBackend.coerce_dtype)
                 v = given.get(a)
-                ok = v is not None and isinstance(v, ast.Attribute) and v.attr.lstrip("_") == a
+                ok = v is True or (v is not None and isinstance(v, ast.Attribute) and v.attr.lstrip("_") == a)
                 ctx.ob("R3", f, f"{f.short}: {target}(...) built from `{src}` carries `{a}`", ok,
                        "forwarded" if ok else
                        (f"`{a}` of the source component is not passed to {target}(...): the attribute is lost by the transformation"
                         if v is None else f"{a}={txt(v)}"), f.loc(c))
+        if n_site == 0:
+            raise AnalysisError(f"{f.qual}: no {target}(...) conversion found")
 
 
 def r4_raises(ctx):
@@ -157,10 +220,48 @@ def r4_raises(ctx):
                            "documented error class" if ok else "invalid requests must raise SchemaInitError/ValueError", f.loc(s))
 
 
+def r5_order(ctx):
+    """Re-keying a column keeps its position: pop-and-insert moves it to the end (ordered=True schemas, column order of the result)."""
+    ix = ctx.ix
+    seen = set()
+    for q in SCHEMA_CLASSES:
+        c = ix.cls(q)
+        for m in TRANSFORMS:
+            f = c.lookup(m)
+            if f is None or f.qual in seen:
+                continue
+            seen.add(f.qual)
+            moved = []
+            removed = set()
+            for s in walk_no_nested(f.node):
+                if isinstance(s, ast.Delete):
+                    for t in s.targets:
+                        if isinstance(t, ast.Subscript):
+                            removed.add(txt(t.value))
+                if isinstance(s, ast.Call) and callee_last(s) == "pop" and isinstance(s.func, ast.Attribute):
+                    removed.add(txt(s.func.value))
+            for s in walk_no_nested(f.node):
+                if isinstance(s, ast.Assign) and isinstance(s.targets[0], ast.Subscript):
+                    d = txt(s.targets[0].value)
+                    if not d.endswith(("columns", "indexes")) and d not in removed:
+                        continue
+                    reads_same = any((isinstance(n, ast.Call) and callee_last(n) == "pop" and isinstance(n.func, ast.Attribute) and txt(n.func.value) == d)
+                                     or (isinstance(n, ast.Subscript) and txt(n.value) == d and d in removed and txt(n.slice) != txt(s.targets[0].slice))
+                                     for n in ast.walk(s.value))
+                    if reads_same:
+                        moved.append(s)
+            ctx.ob("R5", f, f"{f.short}: re-keyed entries keep their position", not moved,
+                   "no pop-and-insert on the columns mapping" if not moved else
+                   f"`{txt(moved[0])[:90]}` removes an entry and re-inserts it under another key: it moves to the end of the mapping, so the "
+                   "column order of the transformed schema no longer mirrors the renamed frame (ordered=True rejects it; rename back does not restore the order)",
+                   f.loc(moved[0]) if moved else "")
+
+
 def run(ctx):
     r1_purity(ctx)
     r2_properties(ctx)
     r3_forwarding(ctx)
     r4_raises(ctx)
+    r5_order(ctx)
     ctx.assume("copy.deepcopy yields an independent object; copy.copy is independent at the top level unless the class "
                "restores `__dict__ = state` (modelled)")
